@@ -161,6 +161,13 @@ def run(tier, seed):
         from . import c14
         chk.machine_family("ops-within-one-body", c14.body_scenarios(), features=features)
         chk.exhaustive = True
+    # random API sessions (loads, registrations, asserts through both routes, queries advanced step by
+    # step and abandoned between updates, clears) over unusual term shapes; decided by the machine
+    from .. import gen as _gen
+    _rnd = random.Random(seed * 7919 + 7)
+    _ss = [_gen.api_session(_rnd, engines=1, length=_rnd.randint(6, 14)) for _ in range(300 if tier == "quick" else 5000)]
+    for _i in range(0, len(_ss), 2500):
+        chk.machine_family("api-sessions-%d" % (_i // 2500), _ss[_i:_i + 2500], features=features)
     chk.assumptions = ["TLC and the TLA+ modules Terms/YP", "the projection (harness/real.py) and the Prolog renderer (harness/terms.py)",
                        "database contents are read back with match_dynamic (facts-only public API)"]
     return chk.finish()
